@@ -26,6 +26,9 @@ VERIF = os.path.dirname(os.path.dirname(os.path.abspath(__file__)))
 REPO = os.environ.get("VERIF_REPO", "/repo")
 SCRATCH_ROOT = os.environ.get("VERIF_SCRATCH", "/var/tmp/typify-verif")
 TARGET_DIR = os.environ.get("VERIF_KANI_TARGET", os.path.join(VERIF, "work", "kani-target"))
+# one shared target directory for every native (playback) build: results are read from the test
+# output, not from the directory, and cargo serialises concurrent builds on its lock
+PLAYBACK_TARGET = os.path.join(TARGET_DIR, "_playback")
 RSS_LIMIT_KB = int(os.environ.get("VERIF_RSS_LIMIT_GB", "14")) * 1024 * 1024
 
 CARGO_CONFIG = """[source.crates-io]
@@ -385,7 +388,7 @@ def native_batch(ws, items, log_dir):
     env.pop("RUSTUP_TOOLCHAIN", None)
     env["RUSTFLAGS"] = "--cap-lints=warn"
     target = os.path.join(TARGET_DIR, os.path.basename(ws.dir))
-    env["CARGO_TARGET_DIR"] = target + "-playback"
+    env["CARGO_TARGET_DIR"] = PLAYBACK_TARGET
     os.makedirs(log_dir, exist_ok=True)
     by_unit = {}
     for u, h in items:
@@ -474,7 +477,7 @@ def _run_native_tests(ws, unit, tests, log_dir, env, target):
         open(src, "w").write(s2)
         env2 = dict(env)
         env2["RUSTFLAGS"] = "--cap-lints=warn"
-        env2["CARGO_TARGET_DIR"] = target + "-playback"
+        env2["CARGO_TARGET_DIR"] = PLAYBACK_TARGET
         cmd2 = [
             "cargo", "kani", "playback", "-p", ws.package, "-Z", "concrete-playback",
             "--", tname,
